@@ -183,12 +183,12 @@ impl core::fmt::Display for Board {
 
         match self.ep() {
             Some(file) => {
-                let rank = self.turn.enpassant_pawn_rank();
+                let rank = self.turn.enpassant_capture_rank();
 
                 let file = (file as u8 + b'a') as char;
                 f.write_str(" ")?;
                 f.write_char(file)?;
-                core::fmt::Display::fmt(&(rank as u8), f)?;
+                core::fmt::Display::fmt(&rank, f)?;
                 f.write_str(" ")?;
             }
             None => f.write_str(" - ")?,
